@@ -101,7 +101,7 @@ def run(pid, tier):
     if vlib.record(V, ["fx", "record", "--seed", seed, "--n", 300 if quick else 6000, "--out", rnd]):
         traces.append(rnd)
     hist, steps = validate(pid, traces, tag, V, shards=6 if quick else 12)
-    bind = binding_demo(pid, traces[-1], d, tag) if traces else {}
+    bind = binding_demo(pid, traces[-1], d, tag) if traces and not V.viol else {"skipped": "violations were found"}
     sample = []
     if traces:
         H = vlib.read_ndjson(traces[-1])[:40]
